@@ -11,7 +11,7 @@ from pathlib import Path
 V = Path(__file__).resolve().parent.parent
 dirs = [Path(a) for a in sys.argv[1:]] or sorted((V / "benign").glob("C*")) + sorted((V / "seeded").glob("C*"))
 jobs = int(os.environ.get("JOBS", "5"))
-base = Path("/var/tmp/verif-corpus")
+base = Path(f"/var/tmp/verif-corpus-{os.getpid()}")  # per invocation: two runs side by side must not remove each other's scratch trees
 
 
 def one(d):
@@ -74,6 +74,11 @@ with ThreadPoolExecutor(jobs) as ex:
         bad += 0 if ok else 1
 shutil.rmtree(base, ignore_errors=True)
 n_seeded = len(list((V / "seeded").glob("C*")))
+if results and os.environ.get("MERGE_RESULTS") and (V / "seeded" / "RESULTS.json").exists():
+    # a partial re-run (after a rule edit that can only affect these patches): update their entries in the full table
+    merged = json.load(open(V / "seeded" / "RESULTS.json"))
+    merged.update(results)
+    results = merged
 if results and len(results) == n_seeded:
     json.dump(results, open(V / "seeded" / "RESULTS.json", "w"), indent=1, sort_keys=True)
     with open(V / "seeded" / "RESULTS.md", "w") as f:
